@@ -5,6 +5,10 @@
 import JS.Codec
 import JS.Drafts
 import JS.History
+import JS.Module
+import JS.Spec.Equality
+import JS.Spec.Numeric
+import JS.Spec.Pointer
 namespace JS.Channels
 open JS JS.Codec
 
@@ -110,7 +114,9 @@ def setupResolver (env : Env) (cfg : Cfg) (schema : Json) (p : Json) : Res RStat
 /-- VAL: one `iter_errors` run consumed per `budget`, from a fresh resolver -/
 def runVAL (env : Env) (p : Json) : Except Query Json :=
   let (cfg, _) := decCfg (fldD p "cls" .null) (fldD p "fc" .null)
-  let schema := fldD p "schema" .null
+  let schema := match fld p "metaOf" with
+    | some (.str t) => ((Draft.ofTag? (String.ofList t)).map Draft.metaSchema).getD .null
+    | _ => fldD p "schema" .null
   let inst := fldD p "inst" .null
   let budget := optNat (fld p "budget")
   let fuel := (optNat (fld p "fuel")).getD 200
@@ -173,11 +179,125 @@ def runPTR (p : Json) : Json :=
   | some v => .arr [jS "ok", v]
   | none => .arr [jS "RefResolutionError"]
 
+/-- EQ: the equality helpers on a pair and on an array, next to the specification's answers -/
+def runEQ (p : Json) : Json :=
+  let a := fldD p "a" .null
+  let b := fldD p "b" .null
+  let xs := match fld p "arr" with | some (.arr xs) => xs | _ => []
+  .obj [ ("equal".toList, .bool (equal a b)), ("pyEq".toList, .bool (pyEq a b)),
+         ("jsonEq".toList, .bool (Spec.jsonEq a b)),
+         ("uniq".toList, .bool (uniq xs)), ("allDistinct".toList, .bool (Spec.allDistinct xs)),
+         ("wf".toList, .bool (Spec.WF a && Spec.WF b && Spec.WFList xs)) ]
+
+def numOf (j : Json) : Num := match j with | .num n => n | _ => .int 0
+
+/-- NUM: comparisons and `multipleOf` on a pair of numbers, next to exact rational answers -/
+def runNUM (p : Json) : Json :=
+  let i := numOf (fldD p "i" .null)
+  let d := numOf (fldD p "d" .null)
+  let vi := Spec.val i
+  let vd := Spec.val d
+  .obj [ ("lt".toList, .bool (Num.lt i d)), ("le".toList, .bool (Num.le i d)), ("eq".toList, .bool (Num.eq i d)),
+         ("specLt".toList, .bool (decide (vi < vd))), ("specLe".toList, .bool (decide (vi ≤ vd))),
+         ("specEq".toList, .bool (decide (vi = vd))),
+         ("mult".toList, match multipleOfFailed i d with
+            | .ok b => .bool b
+            | .error c => jS c),
+         ("specMult".toList, if vd = 0 then .null else .bool (decide ((vi / vd).den ≠ 1))),
+         ("iIsDouble".toList, .bool ((i.toDouble.map fun f => Num.eq f i).getD false)),
+         ("dIsDouble".toList, .bool ((d.toDouble.map fun f => Num.eq f d).getD false)),
+         ("quotient".toList, match i.toDouble, d.toDouble with
+            | some fi, some fd => if fd.isZero then jS "zero" else
+                (match Num.fdiv fi fd with | .inf => jS "inf" | .fin q => .num q)
+            | _, _ => jS "overflow") ]
+
+def decPath (j : Json) : List PathElem :=
+  match j with
+  | .arr xs => xs.filterMap fun x => match x with
+      | .str k => some (.key k)
+      | .num (.int n) => some (.idx n.toNat)
+      | _ => none
+  | _ => []
+
+/-- an error as far as the tree is concerned: path, keyword, instance -/
+def decTreeErr (j : Json) : Err :=
+  let kw : Option Str := match fld j "kw" with | some (.str k) => some k | _ => none
+  let info : Option Meta := match fld j "inst" with
+    | some (.arr [x]) => some ⟨kw, .null, x, .null⟩
+    | _ => none
+  .mk ⟨stringOf (fldD j "id" (.str [])), []⟩ info (decPath (fldD j "path" (.arr []))) [] [] none
+
+partial def encTree (t : Tree) : Json :=
+  .obj [ ("errors".toList, .arr (t.errors.map fun (k, e) =>
+            .arr [match k with | some k => .str k | none => .null, jS e.msg.tmpl])),
+         ("children".toList, .arr (t.children.map fun (p, c) => .arr [encPath [p], encTree c])),
+         ("inst".toList, match t.inst with | some i => .arr [i] | none => .null),
+         ("total".toList, .num (.int t.totalErrors)) ]
+
+/-- TREE: `ErrorTree(errors)` and a battery of `tree[...]` lookups -/
+def runTREE (p : Json) : Json :=
+  let es := match fld p "errors" with | some (.arr xs) => xs.map decTreeErr | _ => []
+  let t := Tree.build es
+  let qs := match fld p "queries" with | some (.arr xs) => xs.map decPath | _ => []
+  let answer (q : List PathElem) : Json :=
+    let rec go (t : Tree) : List PathElem → Json
+      | [] => .arr [jS "ok", .num (.int t.totalErrors), encPath t.keys]
+      | x :: rest => match t.getitem x with
+          | .ok (c, _) => go c rest
+          | .error cls => .arr [jS "raise", jS cls]
+    go t q
+  .obj [ ("tree".toList, encTree t), ("answers".toList, .arr (qs.map answer)) ]
+
+def encModResult : ModResult → Json
+  | .ok => .arr [jS "ok"]
+  | .schemaError e => .arr [jS "SchemaError", encErr e]
+  | .validationError e => .arr [jS "ValidationError", encErr e]
+  | .raise e => .arr [jS "raised", encExc e]
+  | .other s => .arr [jS "other", encStop s]
+
+def classOfTag (t : Json) : Option ClassDef :=
+  match t with
+  | .str s => (Draft.ofTag? (String.ofList s)).map Draft.classDef
+  | _ => none
+
+/-- MOD: `jsonschema.validate`, `validator_for`, `check_schema`, `best_match` -/
+def runMOD (env : Env) (p : Json) : Except Query Json :=
+  let g := Globals.initial
+  let schema := fldD p "schema" .null
+  let inst := fldD p "inst" .null
+  let fuel := (optNat (fld p "fuel")).getD 200
+  let cls := classOfTag (fldD p "cls" .null)
+  let fcD : Option Draft := match fldD p "cls" .null with | .str s => Draft.ofTag? (String.ofList s) | _ => none
+  let fc := decFc fcD (fldD p "fc" .null)
+  let vf : Json := match validatorFor env g ((classOfTag (fldD p "default" .null)).getD g.latest) schema with
+    | .ok (c, w) => .arr [jS c.name, .bool w]
+    | .raise e => .arr [jS "raised", encExc e]
+    | .miss _ => .null
+  let chk : Json := match cls with
+    | some c => (match checkSchema env noFmtImpl g c fuel schema with
+        | .ok => .arr [jS "ok"]
+        | .schemaError e => .arr [jS "SchemaError", encErr e]
+        | .raise e => .arr [jS "raised", encExc e]
+        | .other s => .arr [jS "other", encStop s])
+    | none => .null
+  let (r, warned) := moduleValidate env noFmtImpl g fuel Generated.weakMatches Generated.strongMatches cls fc inst schema
+  match r with
+  | .other (.miss q) => .error q
+  | _ =>
+    match validatorFor env g g.latest schema with
+    | .miss q => .error q
+    | _ => .ok (.obj [ ("validate".toList, encModResult r), ("warned".toList, .bool warned),
+                       ("validatorFor".toList, vf), ("checkSchema".toList, chk) ])
+
 def run (ch : String) (env : Env) (p : Json) : Except Query Json :=
   match ch with
   | "VAL" => runVAL env p
   | "HIST" => runHIST env p
+  | "MOD" => runMOD env p
   | "PTR" => .ok (runPTR p)
+  | "EQ" => .ok (runEQ p)
+  | "NUM" => .ok (runNUM p)
+  | "TREE" => .ok (runTREE p)
   | _ => .ok (.arr [jS "unknown-channel"])
 
 end JS.Channels
